@@ -23,7 +23,8 @@
    memo lives as long as the Script.
 
    Faults: Raise -- an exception escapes in the middle of an inference (the finally
-   blocks pop the guards); QueryFails -- a query rejected before any work.         *)
+   blocks pop the guards, the memo defaults of the unwound frames are removed iff
+   PopDefaultOnRaise); QueryFails -- a query rejected before any work.         *)
 EXTENDS Naturals, Sequences, FiniteSets, TLC, Json
 
 CONSTANTS K,                 \* number of nodes
@@ -33,6 +34,8 @@ CONSTANTS K,                 \* number of nodes
           RecLimit, TotalLimit, PerFuncLimit, PerFuncRec, InferLimit,
           ResetCounts,       \* see above
           GuardsOn,          \* FALSE = what-if: the execution budgets are ignored
+          PopDefaultOnRaise, \* TRUE = _memoize_default removes its default when the computation raises (the
+                             \* repaired code); FALSE = the default stays behind (the code before the repair)
           MaxQueries,        \* queries on the Script under test
           MaxRaises          \* injected exceptions
 
@@ -192,7 +195,8 @@ Raise ==
   /\ nraise' = nraise + 1
   /\ stack' = <<>> /\ retv' = None /\ rt' = FALSE /\ answer' = Raised
   /\ pushed' = <<>> /\ level' = 0 /\ parents' = <<>>
-  /\ UNCHANGED <<dep, target, ref, phase, memo, execCount, perFunc, inferCount, steps, nq, lastq>>
+  /\ memo' = IF PopDefaultOnRaise THEN [n \in Nodes |-> IF memo[n] = Default THEN Absent ELSE memo[n]] ELSE memo
+  /\ UNCHANGED <<dep, target, ref, phase, execCount, perFunc, inferCount, steps, nq, lastq>>
 
 \* a query that is rejected before any work (ValueError for a bad position)
 QueryFails ==
